@@ -318,7 +318,7 @@ func (c *c11Reg) httpTable() {
 							for _, proc := range []string{"ok", "nobody", "legacy", "other"} {
 								for _, bd := range []bool{false, true} {
 									body := map[string][]byte{"N": garbage, "0": without, "1": with}[wr]
-									gen := uint32(1)
+									gen := uint32(0) // the request names generation 5 (or none, read as 0)
 									if newer {
 										gen = 9
 									}
